@@ -415,7 +415,19 @@ func (r *run) convert(cur *node, v Value, from, to types.Type) Value {
 			for _, i := range x.Base.Idxs {
 				arr = c.Select(arr, i)
 			}
-			return Scalar{r.uf("str.of$"+typeKey(from), s, arr, x.Off, x.Len)}
+			res := r.uf("str.of$"+typeKey(from), s, arr, x.Off, x.Len)
+			if eb, ok := x.Base.T.Underlying().(*types.Basic); ok && eb.Kind() == types.Uint8 && s == StrSort {
+				// string(b) for a byte slice: same length; in int mode also the same bytes
+				r.assume(c.True(), c.Eq(r.uf("strlen$", r.idx(), res), x.Len))
+				if r.mode == "int" {
+					es := r.scalarSort(x.Base.T)
+					j := c.BoundVar("j", r.idx())
+					at := r.uf("strat$", es, res, j)
+					r.assume(c.True(), c.Forall([]*smt.Term{j}, c.Implies(c.And(r.sle(r.idxConst(0), j), r.slt(j, x.Len)),
+						c.Eq(at, c.Select(arr, r.iadd(x.Off, j)))), []*smt.Term{at}))
+				}
+			}
+			return Scalar{res}
 		}
 	}
 	if st, ok := to.Underlying().(*types.Slice); ok {
@@ -431,6 +443,16 @@ func (r *run) convert(cur *node, v Value, from, to types.Type) Value {
 			ln := r.uf("len.of$"+typeKey(to), r.idx(), sv.T)
 			r.assume(c.True(), r.sle(r.idxConst(0), ln))
 			r.assume(c.True(), r.sle(ln, r.idxConst(r.sliceBound())))
+			if eb, ok := st.Elem().Underlying().(*types.Basic); ok && eb.Kind() == types.Uint8 {
+				// []byte(s): as long as s; in int mode also the bytes of s
+				r.assume(c.True(), c.Eq(ln, r.uf("strlen$", r.idx(), sv.T)))
+				if r.mode == "int" {
+					j := c.BoundVar("j", r.idx())
+					sel := c.Select(content, j)
+					r.assume(c.True(), c.Forall([]*smt.Term{j}, c.Implies(c.And(r.sle(r.idxConst(0), j), r.slt(j, ln)),
+						c.Eq(sel, r.uf("strat$", es, sv.T, j))), []*smt.Term{sel}))
+				}
+			}
 			// []rune(s) decodes s faithfully (no byte replaced by U+FFFD) exactly when s is valid UTF-8.
 			// The link is stated only when a contract file declares the two predicates:
 			//   u8_valid_str(Str) Bool   and   u8_faithful((Array idx rune) idx idx) Bool
@@ -1168,6 +1190,10 @@ func (r *run) applyContract(fr *frame, cur *node, fn *ssa.Function, fc *contract
 		if r.assumedContracts != nil {
 			r.assumedContracts["assumed contract of "+shortName(fn.String())] = true
 		}
+	} else if fc.NoFrame && r.assumedContracts != nil {
+		// the callee's postconditions are proved, its frame is not: this caller assumes that the callee writes
+		// nothing outside its modifies clause
+		r.assumedContracts["assumed frame (modifies clause not checked, 'noframe') of "+shortName(fn.String())] = true
 	}
 	return r.applyContractSig(fr, cur, shortName(fn.String()), fc, pnames, ptypes, args, fn.Signature.Results(), r.E.pkgForContractFn(fc, fn))
 }
